@@ -643,6 +643,22 @@ pub fn random_dag(rng: &mut Rng, max_nodes: usize, cap: u64) -> Vec<DN> {
         pool.push(vec![0x01, 0x00, 0x00, (low & 0xff) as u8]);
         pool.push(vec![(low & 0x7f) as u8]);
     }
+    if rng.chance(1, 4) {
+        // near-twin heap atoms: equal except for the last / first / middle byte, or one a prefix of the other,
+        // at the lengths where keys, hashes and inline buffers change size
+        let len = *rng.pick(&[5usize, 8, 16, 31, 32, 33, 48, 64, 65, 96]);
+        let base = rng.bytes(len);
+        let mut t1 = base.clone();
+        t1[len - 1] ^= 1;
+        let mut t2 = base.clone();
+        t2[0] ^= 0x80;
+        let mut t3 = base.clone();
+        t3[len / 2] ^= 0x10;
+        let mut t4 = base.clone();
+        t4.push(base[len - 1]);
+        pool.clear();
+        pool.extend([base.clone(), t1, t2, t3, t4, base[..len - 1].to_vec(), vec![], vec![1]]);
+    }
     let n = 1 + rng.below(max_nodes as u64) as usize;
     let mut d: Vec<DN> = Vec::new();
     let mut size: Vec<u64> = Vec::new();
